@@ -147,7 +147,9 @@ pub fn run(seed: u64, tier: &str, out: &mut Out) {
                 14 | 15 => {
                     // eta / duration / elapsed together with the rate at the same instant
                     case += " ; q ; eta ; dur ; el";
-                    let (v, eta, dur, el) = (pb.per_sec(), pb.eta(), pb.duration(), pb.elapsed());
+                    // the getters must not panic (C09: finite and non-negative at every instant); a panic would also poison the bar
+                    let got = std::panic::catch_unwind(std::panic::AssertUnwindSafe(|| (pb.per_sec(), pb.eta(), pb.duration(), pb.elapsed())));
+                    let (v, eta, dur, el) = match got { Ok(t) => t, Err(_) => { fail(&mut verdict, "FAIL panic in per_sec/eta/duration/elapsed".to_string()); obs.push("panic".to_string()); break; } };
                     obs.push(v.to_bits().to_string()); obs.push(eta.as_nanos().to_string()); obs.push(dur.as_nanos().to_string()); obs.push(el.as_nanos().to_string());
                     let remaining = len.map(|l| l.saturating_sub(pos));
                     let zero_case = finished || len.is_none() || (!finished && v == 0.0);
